@@ -233,6 +233,9 @@ class ReadableStream(io.RawIOBase):
     #: Total size of data or ``None`` if not specified
     size = None
 
+    #: Segment data not yet consumed by readinto()
+    _pending = b""
+
     def __init__(self, sdo_client, index, subindex=0):
         """
         :param canopen.sdo.SdoClient sdo_client:
@@ -319,9 +322,13 @@ class ReadableStream(io.RawIOBase):
         Read bytes into a pre-allocated, writable bytes-like object b,
         and return the number of bytes read.
         """
-        data = self.read(7)
-        b[:len(data)] = data
-        return len(data)
+        if not self._pending:
+            self._pending = self.read(7)
+        # The caller's buffer may be smaller than one segment
+        size = min(len(b), len(self._pending))
+        b[:size] = self._pending[:size]
+        self._pending = self._pending[size:]
+        return size
 
     def readable(self):
         return True
@@ -456,6 +463,9 @@ class BlockUploadStream(io.RawIOBase):
     blksize = 127
 
     crc_supported = False
+
+    #: Segment data not yet consumed by readinto()
+    _pending = b""
 
     def __init__(self, sdo_client, index, subindex=0, request_crc_support=True):
         """
@@ -609,9 +619,13 @@ class BlockUploadStream(io.RawIOBase):
         Read bytes into a pre-allocated, writable bytes-like object b,
         and return the number of bytes read.
         """
-        data = self.read(7)
-        b[:len(data)] = data
-        return len(data)
+        if not self._pending:
+            self._pending = self.read(7)
+        # The caller's buffer may be smaller than one segment
+        size = min(len(b), len(self._pending))
+        b[:size] = self._pending[:size]
+        self._pending = self._pending[size:]
+        return size
 
     def readable(self):
         return True
